@@ -148,7 +148,34 @@ def c03_streams(run, tier, seed):
         pipeline.oracle_c03(run, s, pr, r)
         pipeline.oracle_c02(run, s, pr, r)
     s.sample({"rom": progs[0]["rom"], "src": progs[0]["src"][:300]})
-    return [s, c03_ram_sections(run, tier, seed)]
+    return [s, c03_ram_sections(run, tier, seed), c03_positions_in_bodies(run, tier, seed)]
+
+
+def c03_positions_in_bodies(run, tier, seed):
+    rng = core.rng_for(seed, "c03-bodies")
+    s = core.Stream("S4-positions-in-bodies", "`*=` / `@=` whose operand names a loop variable, a macro parameter or a block-local symbol that also has another value in an enclosing scope: each expansion positions its bytes with the value the name has there; expected blocks given; non-trivial = distinct shapes x values")
+    fam = []
+    for i in range(8 if tier == "quick" else 80):
+        outer, n, step = rng.randrange(4, 9), rng.randrange(2, 5), rng.choice([0x10, 0x20, 0x100])
+        base = 0x018000
+        off = lambda a: ((a >> 16) * 0x8000) + (a & 0x7FFF)   # noqa: E731  (LoROM)
+        fam.append((f"k_zq := {outer}\n.for k_zq := 0, {n} {{\n*=0x{base:06x} + k_zq * 0x{step:x}\n.db k_zq, 0x5a\n}}\n",
+                    [(off(base + k * step), bytes([k, 0x5A])) for k in range(n)]))
+        fam.append((f"k_zq := {outer}\n.macro at_zq(k_zq) {{\n*=0x{base:06x} + k_zq * 0x{step:x}\n.db k_zq\n}}\nat_zq(1)\nat_zq(3)\n*=0x{base:06x} + k_zq * 0x{step:x}\n.db 0xEE\n",
+                    [(off(base + 1 * step), b"\x01"), (off(base + 3 * step), b"\x03"), (off(base + outer * step), b"\xee")]))
+        fam.append((f"k_zq := {outer}\n*=0x{base:06x}\n.db 0x11\n{{\nk_zq = 2\n*=0x{base:06x} + k_zq * 0x{step:x}\n.db k_zq\n}}\n*=0x{base:06x} + k_zq * 0x{step:x}\n.db 0xEE\n",
+                    [(off(base), b"\x11"), (off(base + 2 * step), b"\x02"), (off(base + outer * step), b"\xee")]))
+    progs = [raw("low_rom", src, meta=exp) for src, exp in fam]
+    for pr, r, m in run.run(progs, trace=False):
+        s.cases += 1
+        s.nontrivial.add(pr["src"])
+        run.correspond(s, pr, r, m)
+        got = [(a, bytes(b)) for a, b in r["blocks"]] if r["status"] == "ok" else None
+        if got != pr["meta"]:
+            s.violate({"src": pr["src"]}, [(hex(a), b.hex()) for a, b in pr["meta"]], [(hex(a), b.hex()) for a, b in got] if got is not None else (r.get("exc"), r.get("error")),
+                      "bytes positioned by a `*=` / `@=` inside a loop / macro / block body are not written at the offset of the address the operand has in that expansion")
+    s.sample({"src": fam[0][0]})
+    return s
 
 
 def c03_ram_sections(run, tier, seed):
@@ -394,6 +421,9 @@ def c07_streams(run, tier, seed):
             bins["blob.bin"] = bins["blob.bin"][:ln]
             extra = ".incbin 'blob.bin'\nafterbin:\n.dw blob_bin__size\n.dl blob_bin\n"
         txt = "".join(rng.choice(["a", "b", "c", " ", "X", "Y", "Z", "0", "9", "é", "\\'", "[0x41]", "[0x7f]", "[", "]", "[0x", "{", "}", ";", "/*", ",", "\\n", "%", "\t"]) for _ in range(rng.randrange(0, 6)))
+        if rng.random() < 0.15:
+            # comment-looking text inside a string is text: a complete /* */ pair, or its halves in two strings
+            txt = rng.choice(["see /* the manual */ p.3", "a/*b*/c", "/**/", "x */ y /* z", "/* open", "close */", "; not a comment /* */"])
         src = f"*=0x{base:06x}\nstart:\n.{kind} " + ", ".join(items) + f"\nafter:\n.ascii '{txt}'\nafter2:\n{extra}end:\n"
         progs.append(raw("low_rom", src, bins=bins, meta=(kind, n, base, total, txt)))
     # long operand lists (a data table of a thousand entries on one directive)
@@ -429,6 +459,12 @@ def c07_streams(run, tier, seed):
             exp2 = (bus.get_address(base) + total + n_ascii).logical_value
             if labs.get("after2") != exp2:
                 s.violate({"src": pr["src"]}, hex(exp2), labs.get("after2"), ".ascii does not occupy its emitted size")
+            if "\\" not in txt and r.get("nodes") is not None:
+                # the bytes of the .ascii are the ASCII bytes of the text as written in the source (no escapes here)
+                an = [n_ for n_ in r["nodes"] if n_["cls"] == "AsciiNode"]
+                if an and (an[0].get("bytes") or b"") != txt.encode("ascii", "ignore"):
+                    s.violate({"src": pr["src"]}, txt.encode("ascii", "ignore").hex(), (an[0].get("bytes") or b"").hex(),
+                              ".ascii does not emit the ASCII bytes of the quoted text as written")
             if pr["bins"]:
                 blob = pr["bins"]["blob.bin"]
                 exp3 = (bus.get_address(base) + total + n_ascii + len(blob)).logical_value
